@@ -484,8 +484,48 @@ impl<'a> G14<'a> {
         }
     }
 
+    /// every evaluation of a constructor call yields a new object, also when all its operands
+    /// are literal constants and the call site is evaluated repeatedly by the same code
+    fn freshness_probe(&mut self) {
+        self.marker += 1;
+        let m = self.marker;
+        let (ctor, mutate): (&str, &str) = match self.rng.below(8) {
+            0 => ("(list 1 2 3)", "set-car!"),
+            1 => ("(vector 0 'empty #t)", "vector-set!"),
+            2 => ("(cons 1 2)", "set-cdr!"),
+            3 => ("(list 'a \"s\" #\\c)", "set-car!"),
+            4 => ("(make-vector 2 0)", "vector-set!"),
+            5 => ("(list (list 1) 2)", "set-car!"),
+            6 => ("(vector (vector 1) '(q))", "vector-set!"),
+            _ => ("(append '(1) '(2))", "set-car!"),
+        };
+        let mutation = |target: &str| match mutate {
+            "vector-set!" => format!("(vector-set! {} 0 'fresh{})", target, m),
+            "set-cdr!" => format!("(set-cdr! {} 'fresh{})", target, m),
+            _ => format!("(set-car! {} 'fresh{})", target, m),
+        };
+        let forms = vec![
+            format!("(define (%mk{}) {})", m, ctor),
+            format!("(define %fa{m} (%mk{m}))", m = m),
+            format!("(define %fb{m} (%mk{m}))", m = m),
+            mutation(&format!("%fa{}", m)),
+            format!("(list %fa{m} %fb{m} (%mk{m}))", m = m),
+            format!("(define %fl{m} (let loop ((i 0) (acc '())) (if (< i 3) (loop (+ i 1) (cons {c} acc)) acc)))", m = m, c = ctor),
+            mutation(&format!("(car %fl{})", m)),
+            format!("%fl{}", m),
+        ];
+        self.ops.push("constructor-freshness");
+        for f in forms {
+            self.emit(&f);
+        }
+        self.dump();
+    }
+
     pub fn generate(mut self, steps: usize) -> (Vec<Sx>, usize, Vec<&'static str>) {
         self.init_pool();
+        if self.rng.chance(1, 3) {
+            self.freshness_probe();
+        }
         for s in 0..steps {
             if s % 3 == 2 {
                 self.marker_probe();
